@@ -3,6 +3,7 @@
 package litestream
 
 import (
+	"context"
 	"io"
 	"net/http"
 	"os"
@@ -54,4 +55,11 @@ func (db *DB) VerifSetOpenLTXFile(fn func(name string, flag int, perm os.FileMod
 // be driven without a socket.
 func (s *Server) VerifHandler() http.Handler {
 	return s.httpServer.Handler
+}
+
+// VerifSyncOnce runs a single bounded chunk of DB.Sync (what one iteration of
+// the Sync loop does), so that other operations can be scheduled between chunks.
+func VerifSyncOnce(db *DB, ctx context.Context) error {
+	_, err := db.syncOnce(ctx, db.MaxSyncWALBytes)
+	return err
 }
